@@ -17,7 +17,8 @@ RULE = ('history = pool of generated expression ASTs (depth <= 5: traced functio
         'expressions) operations; model = eager interpreter over the same AST plus explicit OrderedDict LRU caches (bounds 128 and '
         '1024) predicting values, identity of cached results, invocation counts, cache_info() and LazyObjectMissingError; second '
         'scenario: LruCache state machine vs the same model for maxsize 1..5; non-trivial = depth >= 3 with a lazy argument, or a '
-        'history that exceeds a bound and re-touches an old key; distinct = distinct canonical case JSON')
+        'history that exceeds a bound and re-touches an old key; distinct = distinct canonical case JSON'
+        '; also: keyword order, same-object cached calls with array arguments, bytes arguments, floods of 255..300 held objects')
 ASSUMPTIONS = [
     'all callables live in vlib/targets.py (importable, so cloudpickle pickles them by reference) and count their invocations',
     'expression equality (cache key) is the library\'s: same callable, same arguments and keyword arguments, recursively - the '
